@@ -279,6 +279,7 @@ func exploreFcx(t *testing.T, cfg *FcxCase, tape []int) *FcxResult {
 			synctest.Test(t, func(t *testing.T) { r.run(path) })
 		}()
 		res.Schedules++
+		Progress.Add(1)
 		res.Steps += r.steps
 		if r.interesting {
 			res.Interesting++
